@@ -217,6 +217,12 @@ def model_terms(job, res, mode):
     programs = res.get("programs") or job["programs"]
     ths = "[" + "; ".join("start_thread %d %s" % (mtid(i), coq(list(p))) for i, p in enumerate(programs)) + "]"
     lhs = "observe_is %s %s %s %s" % (cfg, orc, sched, ths)
+    if res.get("segments"):
+        # option flips: one configuration per segment of the recorded schedule (one thread)
+        segs = "[" + "; ".join("((mkC %s %s %s %d %s), repeat 0 %d)" % (
+            MODES[mode], OWS[sg["ow"]], coq(bool(sg["cache_only"])), more, coq(bool(sg["call"])), sg["nsteps"])
+            for sg in res["segments"]) + "]"
+        lhs = "observe_segs_is %s %s %s %s" % (cfg, orc, segs, ths)
     trace = [(i, l) for i, l in res["trace"]]
     results = [[list(r) for r in rr] for rr in res["results"]]
     hheap = [list(h) for h in res["hheap"]]
@@ -324,6 +330,41 @@ def forced_jobs(ctx, rng):
                 jobs.append({"kind": "nested_forced", "target": target, "opts": opts, "queries": npool,
                              "history": hist, "inner": [3, 4, 5, 0], "api": api, "same_tid": True,
                              "programs": [hist, ["nested"]], "macro": [], "tag": "nested-recorded"})
+    # OPTION FLIPS on one long-lived Reusable* object (overwrite x cache_only set after warm-up x search/__call__/front end)
+    fpool = distinct_pool(rng, [5, 8, 6, 7])
+    fl_targets = [("reusable-hyper", {"max_repeats": 2, "methods": ["greedy"], "optlib": "random"}),
+                  ("reusable-rg", {"max_repeats": 2})]
+
+    def flips(target, opts, script, tag):
+        jobs.append({"kind": "flips", "target": target, "opts": opts, "queries": fpool, "script": script,
+                     "programs": [[st[1] for st in script if st[0] == "q"]], "macro": [], "tag": tag})
+    for target, base in fl_targets:
+        for ow in (False, True, "improved"):
+            for api in ("tree", "path", "via"):
+                # the shape of the red-team history: warm up A, B; cache_only := True; ask A, B, (missing) C
+                flips(target, dict(base, overwrite=ow),
+                      [["q", 0, api], ["q", 1, api], ["set", "cache_only", True], ["q", 0, api], ["q", 1, "tree"],
+                       ["q", 2, api], ["set", "cache_only", False], ["q", 2, api], ["q", 0, "tree"]],
+                      "flips:cache_only-after-warmup")
+            for ow2 in (False, True, "improved"):
+                flips(target, dict(base, overwrite=ow),
+                      [["q", 0, "tree"], ["q", 1, "path"], ["set", "overwrite", ow2], ["q", 0, "tree"],
+                       ["set", "cache_only", True], ["q", 1, "tree"], ["q", 0, "path"], ["q", 3, "tree"],
+                       ["set", "overwrite", ow], ["q", 1, "via"], ["q", 0, "tree"]],
+                      "flips:overwrite-then-cache_only")
+        for _ in range(ctx.n(10, 120)):
+            script = []
+            for _k in range(rng.randint(5, 12)):
+                r = rng.random()
+                if r < 0.2:
+                    script.append(["set", "cache_only", rng.random() < 0.6])
+                elif r < 0.35:
+                    script.append(["set", "overwrite", rng.choice((False, True, "improved"))])
+                else:
+                    script.append(["q", rng.randrange(4), rng.choice(("tree", "tree", "path", "via"))])
+            if not any(st[0] == "q" for st in script):
+                script.append(["q", 0, "tree"])
+            flips(target, dict(base, overwrite=rng.choice((False, True, "improved"))), script, "flips:random")
     # (b) random programs, 2-3 threads, micro-step schedules
     for _ in range(ctx.n(160, 2500)):
         target, opts = rng.choice(reusable_cfgs + auto_cfgs)
@@ -582,7 +623,7 @@ def run(ctx):
                     for p_ in job["programs"][:b["thread"]]:
                         earlier |= set(p_)
             else:
-                earlier = set(job["history"][:b["step"]])
+                earlier = set(job.get("history", [])[:b["step"]])
             key = KEY_STALE if stale_match(job, b, earlier) else None
             if key and ctx.known_key(key):
                 ctx.count("known:" + key)
@@ -630,7 +671,8 @@ def run(ctx):
     cases = []
     owners = []     # case index -> (job index, what)
     for ji, (job, r) in enumerate(zip(fj, fres)):
-        report(job, r, "forced interleaving")
+        report(job, r, {"flips": "history with option flips on one long-lived object",
+                        "nested_forced": "recorded history with nested queries"}.get(job["kind"], "forced interleaving"))
         if "error" in r:
             continue
         if job["target"].startswith("reusable"):
